@@ -1,5 +1,6 @@
 // sc_enc.cpp - scenario "enc": senders encode G1/G2 elements, a store damages the bytes,
 // receivers decode with validating and non-validating decode (C09; memory safety rides along for C17).
+#include <sys/mman.h>
 #include "core.hpp"
 #include "wire.hpp"
 
@@ -80,6 +81,12 @@ struct EncScenario : Scenario {
             out.assign(b.p, b.p + b.n);
         }
         int unmarshal(void* out, const std::vector<uint8_t>& in, bool c, bool checked) {
+            // one delivery in four arrives in memory the receiver may only read (a constant in .rodata, a read-only mapping of a file): the input is const
+            if (env.lib_calls % 4 == 1 && !in.empty()) {
+                size_t off = (size_t) (env.lib_calls % 7); uint8_t* m = (uint8_t*) mmap(nullptr, 8192, PROT_READ | PROT_WRITE, MAP_PRIVATE | MAP_ANONYMOUS, -1, 0);
+                if (m != MAP_FAILED) { uint8_t* p = m + 4096 - in.size() - off; memcpy(p, in.data(), in.size()); mprotect(m, 4096, PROT_READ); mprotect(m + 4096, 4096, PROT_NONE); env.lib_calls++; env.count("fault:encoding_delivered_in_read_only_memory");
+                    int rv = g == 1 ? R.jv_g1_unmarshal(view, out, p, c, checked) : R.jv_g2_unmarshal(view, out, p, c, checked); munmap(m, 8192); return rv; }
+            }
             MBytes b(in.data(), in.size(), (size_t) (env.lib_calls % 3 == 0 ? 1 + env.lib_calls % 15 : 0)); env.lib_calls++;     // exact-size heap copy: over-reads are visible to ASan; arbitrary alignment
             return g == 1 ? R.jv_g1_unmarshal(view, out, b.p, c, checked) : R.jv_g2_unmarshal(view, out, b.p, c, checked);
         }
